@@ -73,6 +73,9 @@ def Ptr.lt : Ptr → Ptr → Bool
   | .ext _, .heap _ _ => false
   | .ext p, .ext q => decide (p < q)
 
+/-- `a - b` on `usize` (64 bit): wraps around when b > a -/
+def usub (a b : Nat) : Nat := if b ≤ a then a - b else a + 2 ^ 64 - b
+
 /-- `new char[sizeof(T) * n]`: a fresh block with n element slots; the result points at slot 0 -/
 def PS.newBlock (S : PS) (n : Nat) : PS × Ptr :=
   ({ S with next := S.next + 1, blk := upd S.blk S.next (some n), log := S.log ++ [.alloc S.next n] }, .heap S.next 0)
